@@ -391,7 +391,7 @@ func c09OnPath(c *fw.Case) (o fw.Outcome) {
 		}
 	case 3, 4: // UL NAS TRANSPORT (PDU session establishment request / release request / release complete)
 		psi := uint8(r.Intn(256))
-		sn := models.Snssai{Sst: int32(r.Intn(256)), Sd: hexs(rbytes(r, 3))}
+		sn := models.Snssai{Sst: int32(r.Intn(256)), Sd: sdString(r)}
 		dnnS := "internet"
 		if r.Intn(2) == 0 {
 			dnnS = string(bytes.Repeat([]byte{byte('a' + r.Intn(26))}, 1+r.Intn(30)))
